@@ -27,20 +27,42 @@ func runSeq(cfg config, seq []op) []stepObs { return runSeqMon(nil, cfg, seq) }
 // runSeqMon also follows the model's PullModes / PullActiveMode streams from its creation; their events
 // are part of every step's observation, and (with a monitor) the subscriber's view is checked.
 func runSeqMon(m *lib.Monitor, cfg config, seq []op) []stepObs {
+	return runSeqMonJoin(m, cfg, seq, len(seq)/2)
+}
+
+// runSeqMonJoin: the late subscriber joins after `join` operations (a replay states the point explicitly).
+func runSeqMonJoin(m *lib.Monitor, cfg config, seq []op, join int) []stepObs {
 	w := newWorldCfg(cfg)
 	w.subscribe(cfg)
 	defer w.streams.cancel()
+	defer func() {
+		if w.streams.lateCancel != nil {
+			w.streams.lateCancel()
+		}
+	}()
 	obs := make([]stepObs, 0, len(seq))
 	hadActive := false
 	for i, o := range seq {
+		if i == join && m != nil && !w.untamed && !w.foreign {
+			w.joinLate(m, map[string]any{"init": cfg, "ops": seq[:i+1], "late_subscriber_joins_after": i})
+		}
 		before := w.snapshot()
 		out, err, p := w.apply(o)
 		after := w.snapshot()
 		if o.untame() != "" && err == nil && !p {
 			w.untamed = true
 		}
-		evs := w.collectEvents(m, map[string]any{"init": cfg, "ops": seq[:i+1]}, o, before, after, err, &hadActive)
+		input := map[string]any{"init": cfg, "ops": seq[:i+1]}
+		if w.streams.lateModes != nil {
+			input["late_subscriber_joins_after"] = join
+		}
+		evs := w.collectEvents(m, input, o, before, after, err, &hadActive)
 		obs = append(obs, stepObs{Op: o, Out: out, State: w.stateString(after) + evs, Before: before, After: after, Err: err, Panic: p})
+	}
+	if w.streams.lateModes != nil && m != nil && !w.untamed {
+		if n := w.streams.lateModes.pending() + w.streams.lateActive.pending(); n > 0 {
+			m.Violate("C19/pull/late-unexpected-event", "the subscriber that joined later was sent an event although nothing observable changed", map[string]any{"init": cfg, "ops": seq}, "no further event", fmt.Sprint(n, " pending"))
+		}
 	}
 	if n := w.streams.modes.pending() + w.streams.active.pending(); n > 0 && m != nil {
 		m.Violate("C19/pull/unexpected-event", "a stream delivered an event although nothing observable changed", map[string]any{"init": cfg, "ops": seq}, "no further event", fmt.Sprint(n, " pending"))
